@@ -59,6 +59,10 @@ func load(queryString string, jsontext string) (json.Structure, json.EscapeType,
 	if err != nil {
 		return nil, et, err
 	}
+	if data == nil {
+		// Empty text holds no value. An empty query would hand the absent value on as it is.
+		data = json.Null{}
+	}
 
 	st, err := Extract(query, data)
 	return st, et, err
